@@ -55,6 +55,10 @@ CliChecks(e) ==
      \cup Flag((c.cmd \in {"encrypt", "decrypt"} /\ c.cause = "malformed_keyring") => e.exit = 1, "C17_tool_accepts_a_keyring_it_must_refuse")
      \* C05 at the tool: the file is made for the key the NAME given stands for (opened by the specification with that key)
      \cup Flag((c.cmd = "encrypt" /\ c.cause = "none") => e.out = "full", "C05_tool_encrypted_to_or_from_another_key_than_the_named_one")
+     \* C05 at the tool: a keyring in which a name stands for two keys (or a key has two names) is refused, never resolved
+     \* silently to one of them
+     \cup Flag((c.cmd \in {"encrypt", "decrypt"} /\ c.cause = "malformed_keyring") => e.exit = 1,
+               "C05_tool_resolves_an_ambiguous_or_malformed_keyring_silently")
      \* C05 at the tool: whoever is reported is the holder of the authenticated key, never another keyring entry
      \cup Flag(e.exit = 0 => e.named \notin {"wrong_name", "wrong_unknown"}, "C05_tool_reports_a_sender_other_than_the_authenticated_key")
 
@@ -99,11 +103,17 @@ TtyChecks(e) ==
              \* C08: what an encryption leaves in its output is the file format and nothing else (no prompt, no name)
              \cup (IF e.cmd \in {"encrypt", "pass_encrypt"} THEN Flag(e.out = "full", "C08_file_is_not_header_plus_records") ELSE {})
              \cup Flag(e.pw_ok, "C16_relocked_under_a_password_other_than_the_confirmed_one")
+             \* C15 at the terminal: the key unlocks under the password it is locked under, at whichever attempt it is typed
+             \cup (IF e.cmd \in {"decrypt", "encrypt"}
+                   THEN Flag(e.rc = 0 /\ e.out = "full", "C15_key_did_not_unlock_under_its_password_typed_at_the_terminal") ELSE {})
         ELSE IF x.res = "error"
         THEN Flag(e.rc = 1 /\ e.errline, "C12_exit_status_untruthful")
              \cup Flag(e.out \in {"untouched", "absent", "none"}, "C13_output_created_or_clobbered_by_failed_command")
+             \cup Flag(~e.printed_key, "C16_relocked_although_no_new_password_was_confirmed")
         ELSE \* interrupted at a prompt: the user backed out before any output existed
              Flag(e.rc # 0, "C12_exit_status_untruthful")
+             \* ... and before any new password was confirmed: no re-locked key is printed
+             \cup Flag(~e.printed_key, "C16_relocked_although_no_new_password_was_confirmed")
              \cup Flag(e.out \in {"untouched", "absent", "none"}, "C13_output_created_or_clobbered_by_failed_command"))
 
 \* C11 at the process boundary: peak resident set of the tool on a large input vs a small one
